@@ -21,33 +21,94 @@ import (
 //	     with and without blocks of templates and of wrap()/ignore()/templ.Raw/c0, the children slot);
 //	(ii) exec of those statements = denote of the fragment tree (the theorem, re-checked on the extracted code)
 //	     = the bytes / error position the COMPILED generated code produces = spec/Denote.v's denote_case.
-func fragment(c *core.Ctx) {
+// fragSrc: one generated file of the fragment pipeline and how it is treated.
+type fragSrc struct {
+	prefix, src string
+	handlers    bool // event-handler file (handlers.go): script templates with definitions; spec/Denote.v does not render on* attributes
+	long        bool // long static runs (longrun.go)
+	noTie       bool // contains characters strconv.Quote escapes by an IsPrint table the generator model takes as an oracle: no text tie
+}
+
+// fragSources: the files of one run - the tgen fragment grammar, then event-handler files and long-static-run files spread
+// evenly between them (so that every build batch holds some).
+func fragSources(c *core.Ctx) []fragSrc {
 	nFiles := c.N(70, 1200)
-	perBuild := 150
-	textOK, inFrag, execOK, denOK, specOK, thmOK := true, true, true, true, true, true
+	var base []fragSrc
+	for i := 0; i < nFiles; i++ {
+		o := tgen.Default()
+		o.Fragment = true
+		o.CSSJS, o.Hand = false, false
+		if i%5 == 4 {
+			// css / script template declarations (and their uses) in the file: generator text tie only - what RenderCSSItems and
+			// RenderScriptItems write for such components is C12's subject
+			o.CSSJS = true
+		}
+		o.Prefix = fmt.Sprintf("G%04d", i)
+		o.Templates = 1 + c.Rng.Intn(3)
+		o.Depth = 1 + c.Rng.Intn(4)
+		base = append(base, fragSrc{prefix: o.Prefix, src: tgen.File(c.Rng.Fork(), o)})
+	}
+	var extra []fragSrc
+	for i, n := 0, c.N(16, 240); i < n; i++ {
+		p := fmt.Sprintf("H%04d", i)
+		extra = append(extra, fragSrc{prefix: p, src: handlerFile(c.Rng.Fork(), p), handlers: true})
+	}
+	for i, n := 0, c.N(5, 60); i < n; i++ {
+		p := fmt.Sprintf("L%04d", i)
+		// sizes around every power of two from 1 KiB to 64 KiB (times 1..3: several boundaries per run); the biggest ones are
+		// rarer and use fewer shifted copies
+		size := lrSizes[c.Rng.Intn(len(lrSizes))]
+		if i < 2 {
+			size = lrSizes[2+i] // 4 KiB and 8 KiB in every run
+		}
+		shifts := 4
+		if size >= 32768 {
+			shifts = 2
+		} else {
+			size = size*(1+c.Rng.Intn(3)) + c.Rng.Intn(64)
+		}
+		unp := i%5 == 4
+		extra = append(extra, fragSrc{prefix: p, src: longRunFile(c.Rng.Fork(), p, size, shifts, unp), long: true, noTie: unp})
+	}
+	// spread the extra files evenly
+	var out []fragSrc
+	step := len(base)/(len(extra)+1) + 1
+	for i, b := range base {
+		out = append(out, b)
+		if (i+1)%step == 0 && len(extra) > 0 {
+			out = append(out, extra[0])
+			extra = extra[1:]
+		}
+	}
+	return append(out, extra...)
+}
+
+func fragment(c *core.Ctx) {
+	srcs := fragSources(c)
+	nFiles := len(srcs)
+	perBuild := 170
+	textOK, inFrag, execOK, denOK, specOK, thmOK, markOK, defsOK := true, true, true, true, true, true, true, true
 	cases, hoisted, traceDiff := 0, 0, 0
 	for start := 0; start < nFiles; start += perBuild {
 		var files []probe.File
+		meta := map[string]fragSrc{}
 		for i := start; i < start+perBuild && i < nFiles; i++ {
-			o := tgen.Default()
-			o.Fragment = true
-			o.CSSJS, o.Hand = false, false
-			if i%5 == 4 {
-				// css / script template declarations (and their uses) in the file: generator text tie only - what RenderCSSItems and
-				// RenderScriptItems write for such components is C12's subject
-				o.CSSJS = true
-			}
-			o.Prefix = fmt.Sprintf("G%04d", i)
-			o.Templates = 1 + c.Rng.Intn(3)
-			o.Depth = 1 + c.Rng.Intn(4)
-			src := tgen.File(c.Rng.Fork(), o)
-			f, err := probe.Prepare(o.Prefix, src)
+			fs := srcs[i]
+			f, err := probe.Prepare(fs.prefix, fs.src)
 			if err != nil {
-				c.Fail("tie", "fragment grammar: generated templates are accepted by parse+generate", "", map[string]string{"source": src}, err.Error())
+				c.Fail("tie", "fragment grammar: generated templates are accepted by parse+generate", "", map[string]string{"source": trunc(fs.src, 6000)}, err.Error())
 				continue
+			}
+			meta[f.Prefix] = fs
+			switch {
+			case fs.handlers:
+				c.Hist("fragment: event-handler file (script templates with definitions)")
+			case fs.long:
+				c.Hist(fmt.Sprintf("fragment: long static run file, longest literal %s", sizeBucket(longestLiteral(f.Code))))
 			}
 			files = append(files, f)
 		}
+		lap("fragment: sources prepared")
 		// (i) text of the printed fragment statements = real generator text
 		reqs := make([]drv.Req, len(files))
 		for i, f := range files {
@@ -63,11 +124,17 @@ func fragment(c *core.Ctx) {
 				}
 				continue
 			}
+			if meta[f.Prefix].noTie {
+				// characters outside the generator model's quoting table (strconv.IsPrint is an oracle there): compiled and rendered only
+				c.Hist("fragment: file with unprintable characters in static text (compile and render only)")
+				kept = append(kept, f)
+				continue
+			}
 			c.Hist("fragment: generator text compared")
 			if string(r[1]) != f.Code {
 				textOK = false
 				if c.NFails("fragment: printed IR = generator.Generate text") < 3 {
-					c.Fail("tie", "fragment: printed IR = generator.Generate text", "", map[string]any{"source": f.Src, "diff": firstDiff(string(r[1]), f.Code)},
+					c.Fail("tie", "fragment: printed IR = generator.Generate text", "", map[string]any{"source": trunc(f.Src, 20000), "diff": firstDiff(string(r[1]), f.Code)},
 						"print_frag (coalesce (gens (to_frag body))) differs from the text the real generator writes: the generator no longer emits the statements the proved fragment generator emits")
 				}
 				// still compiled and rendered below: the denotation decides whether the difference breaks the property
@@ -78,23 +145,48 @@ func fragment(c *core.Ctx) {
 			}
 			kept = append(kept, f)
 		}
+		lap("fragment: text tie")
 		if len(kept) == 0 {
 			continue
 		}
 		// (ii) compiled code = exec = denote = Denote.v
 		prog, err := probe.Build(kept, tgen.Helpers)
 		if err != nil {
-			c.Fail("property", "generated code compiles", "", map[string]any{"build_log": trunc(prog.BuildLog, 3000), "files": len(kept), "first_source": kept[0].Src},
-				"go build of code generated from accepted fragment templates failed")
+			in := map[string]any{"build_log": trunc(prog.BuildLog, 3000), "files": len(kept)}
+			// the file the first compiler message names is the failing input
+			in["first_source"] = kept[0].Src
+			for _, f := range kept {
+				if strings.Contains(prog.BuildLog, f.Prefix+"_templ.go:") {
+					in["first_source"] = f.Src
+					break
+				}
+			}
+			c.Fail("property", "generated code compiles", "", in, "go build of code generated from accepted fragment templates failed")
 			prog.Close()
 			continue
 		}
+		lap("fragment: go build")
 		var pc []probe.Case
 		var owner []int
 		for fi, f := range kept {
+			fs := meta[f.Prefix]
 			for _, t := range f.Templates {
-				for k := 0; k < c.N(4, 8); k++ {
+				if fs.long {
+					// static content: one tuple that reaches the run wherever it sits (else branch, loop body), one random
+					pc = append(pc, probe.Case{Template: t, Args: tgen.Args{S0: "a", S1: "é", B0: false, B1: true, Xs: []string{"x1", "x2"}}}, probe.Case{Template: t, Args: randArgs(c.Rng)})
+					owner = append(owner, fi, fi)
+					continue
+				}
+				n := c.N(4, 8)
+				if fs.handlers {
+					n = c.N(6, 10)
+				}
+				for k := 0; k < n; k++ {
 					a := randArgs(c.Rng)
+					if fs.handlers && k < 4 {
+						// every combination of the two flags the conditional attributes test
+						a.B0, a.B1 = k&1 == 1, k&2 == 2
+					}
 					// errors are part of the theorem (nothing runs after one; position): make them frequent
 					switch c.Rng.Intn(6) {
 					case 0:
@@ -116,14 +208,16 @@ func fragment(c *core.Ctx) {
 			c.Oblige("correspondence", "fragment: probe program runs", false, err.Error())
 			continue
 		}
+		lap("fragment: rendered")
 		reqs = reqs[:0]
 		for i, k := range pc {
 			f := kept[owner[i]]
 			args := [][]byte{[]byte(f.Enc), []byte(k.Template), []byte(probe.Env(f, k.Args))}
-			fargs := append(append([][]byte{}, args...), []byte(scriptEnv(k.Args)))
+			fargs := append(append([][]byte{}, args...), []byte(scriptEnv(f, k.Args)))
 			reqs = append(reqs, drv.Req{Fn: "frag_exec", Args: fargs}, drv.Req{Fn: "frag_denote", Args: fargs}, drv.Req{Fn: "denote", Args: args})
 		}
 		mres := c.Model(reqs)
+		lap("fragment: model")
 		for i := range pc {
 			ex, de, sp := mres[3*i], mres[3*i+1], mres[3*i+2]
 			f := kept[owner[i]]
@@ -134,7 +228,29 @@ func fragment(c *core.Ctx) {
 			} else {
 				c.Hist("fragment render: ok")
 			}
+			fs := meta[f.Prefix]
+			if fs.handlers {
+				c.Hist(fmt.Sprintf("event-handler render: %d script definition element(s) in the document", strings.Count(res[i], "<script>function __templ_")))
+			}
+			if strings.ContainsAny(res[i], "\x01\x02\x03\x04\x05") {
+				markOK = false
+			}
+			mkIn := func(key, model string) map[string]any {
+				return map[string]any{"template": pc[i].Template, "args": pc[i].Args, "source": f.Src, "impl": res[i], key: model, "first_difference": firstDiff(model, res[i])}
+			}
 			in := map[string]any{"template": pc[i].Template, "args": pc[i].Args, "source": f.Src, "impl": res[i]}
+			if fs.handlers {
+				// the specification predicate on the implementation's own document, without any model: a handler may only call
+				// a script function that a <script> element defines earlier in the document
+				if fn, at := undefinedHandlerCall(res[i]); fn != "" {
+					defsOK = false
+					if c.NFails("event handlers: every script function an on* attribute calls is defined earlier in the document") < 3 {
+						c.Fail("property", "event handlers: every script function an on* attribute calls is defined earlier in the document", "",
+							map[string]any{"template": pc[i].Template, "args": pc[i].Args, "source": f.Src, "impl": res[i], "undefined_function": fn, "called_at_byte": at},
+							"the rendered document calls a script-template function from an event-handler attribute, but no <script> element in front of that element defines it")
+					}
+				}
+			}
 			if len(ex) != 4 || len(de) != 4 || len(sp) != 2 {
 				execOK = false
 				c.Fail("tie", "fragment: model replies", "", in, fmt.Sprintf("unexpected replies %q %q %q", first(ex), first(de), first(sp)))
@@ -143,27 +259,24 @@ func fragment(c *core.Ctx) {
 			if string(ex[1]) != res[i] {
 				execOK = false
 				if c.NFails("fragment: compiled generated code = exec of the generated statements") < 3 {
-					in["exec"] = string(ex[1])
-					c.Fail("property", "fragment: compiled generated code = exec of the generated statements", "", in,
+					c.Fail("property", "fragment: compiled generated code = exec of the generated statements", "", mkIn("exec", string(ex[1])),
 						"the compiled generated code renders other bytes (or another error position) than the IR semantics the theorem is about")
 				}
 			}
 			if string(de[1]) != res[i] {
 				denOK = false
 				if c.NFails("fragment: compiled generated code = denotation of the fragment tree") < 3 {
-					in["denote"] = string(de[1])
-					c.Fail("property", "fragment: compiled generated code = denotation of the fragment tree", "", in,
+					c.Fail("property", "fragment: compiled generated code = denotation of the fragment tree", "", mkIn("denote", string(de[1])),
 						"the compiled generated code renders other bytes (or another error position) than the template denotes")
 				}
 			}
 			// spec/Denote.v does not render on* attributes (C03/C12): not compared on such files
-			if hasScriptAttr(f.Src) {
+			if fs.handlers || hasScriptAttr(f.Src) {
 				c.Hist("fragment render: file with on* attributes (spec/Denote.v not compared)")
 			} else if string(sp[1]) != res[i] {
 				specOK = false
 				if c.NFails("fragment: compiled generated code = spec/Denote.v") < 3 {
-					in["spec"] = string(sp[1])
-					c.Fail("property", "fragment: compiled generated code = spec/Denote.v", "", in, "the full-language denotation disagrees on a fragment template")
+					c.Fail("property", "fragment: compiled generated code = spec/Denote.v", "", mkIn("spec", string(sp[1])), "the full-language denotation disagrees on a fragment template")
 				}
 			}
 			// the theorem on the extracted code: outputs always equal; traces equal when no class expression is hoisted
@@ -188,14 +301,17 @@ func fragment(c *core.Ctx) {
 	c.Oblige("correspondence", "fragment: compiled generated code = denotation of the fragment tree (bytes, error position)", denOK, "")
 	c.Oblige("correspondence", "fragment: spec/Denote.v agrees with the fragment denotation on the compiled code's output", specOK, "")
 	c.Oblige("side-condition", "fragment: extracted exec/denote agree as generated_code_correct states (outputs; traces when nothing is hoisted)", thmOK, "")
+	c.Oblige("correspondence", "event handlers: in every rendered document, each script-template function called by an on* / hx-on: attribute is defined by an earlier <script> element", defsOK, "")
+	c.Oblige("side-condition", "fragment: no rendered document contains the control bytes 1..5 spec/ScriptOnce.v uses to carry pending script definitions", markOK, "")
 	c.Extra["fragment_render_cases"] = cases
 	c.Extra["fragment_cases_with_hoisted_class_or_script_expr"] = hoisted
 	c.Extra["fragment_cases_where_hoisting_changes_the_evaluation_trace"] = traceDiff
 }
 
-// scriptEnv: the environment entries of the on* vocabulary (the script's Call string) for one argument tuple.
-func scriptEnv(a tgen.Args) string {
-	var items []string
+// scriptEnv: the environment entries of the on* vocabulary for one argument tuple: the Call string of the hand-written
+// scripts (empty definition), and call / name / function of the file's script templates (handlers.go).
+func scriptEnv(f probe.File, a tgen.Args) string {
+	items := handlerEnvItems(f, a)
 	for _, x := range tgen.FragScriptExprs {
 		if v, ok := tgen.FragScriptCallVal(x, a); ok {
 			items = append(items, astser.List(astser.Atom("script-call:"+x), astser.List(astser.Atom("str"), astser.Atom(v))))
@@ -236,4 +352,92 @@ func firstDiff(a, b string) string {
 		hb = len(b)
 	}
 	return fmt.Sprintf("at byte %d: model %q | real %q", i, a[lo:ha], b[lo:hb])
+}
+
+// longestLiteral: the length of the longest WriteString literal in generated code (evidence only).
+func longestLiteral(code string) int {
+	best := 0
+	for _, ln := range strings.Split(code, "\n") {
+		if i := strings.Index(ln, "templruntime.WriteString("); i >= 0 {
+			if j := strings.Index(ln[i:], ", \""); j >= 0 && len(ln)-(i+j)-5 > best {
+				best = len(ln) - (i + j) - 5
+			}
+		}
+	}
+	return best
+}
+
+func sizeBucket(n int) string {
+	switch {
+	case n < 1024:
+		return "< 1 KiB"
+	case n < 4096:
+		return "1..4 KiB"
+	case n < 8192:
+		return "4..8 KiB"
+	case n < 16384:
+		return "8..16 KiB"
+	case n < 65536:
+		return "16..64 KiB"
+	}
+	return ">= 64 KiB"
+}
+
+// undefinedHandlerCall scans a rendered document left to right: <script>...</script> elements define the functions they
+// declare ("function NAME("); outside them, every call NAME( of a script-template function (NAME = __templ_<name>_<4 hex>)
+// must already be defined.  Returns the first undefined function and where it is called ("" when there is none).
+func undefinedHandlerCall(doc string) (string, int) {
+	defined := map[string]bool{}
+	names := func(seg string, f func(name string, at int) bool) {
+		for off := 0; ; {
+			i := strings.Index(seg[off:], "__templ_")
+			if i < 0 {
+				return
+			}
+			i += off
+			j := i
+			for j < len(seg) && (seg[j] == '_' || seg[j] >= '0' && seg[j] <= '9' || seg[j] >= 'a' && seg[j] <= 'z' || seg[j] >= 'A' && seg[j] <= 'Z') {
+				j++
+			}
+			if j < len(seg) && seg[j] == '(' && !f(seg[i:j], i) {
+				return
+			}
+			off = j
+		}
+	}
+	pos := 0
+	for pos < len(doc) {
+		open := strings.Index(doc[pos:], "<script>")
+		outside := doc[pos:]
+		if open >= 0 {
+			outside = doc[pos : pos+open]
+		}
+		bad, badAt := "", 0
+		names(outside, func(n string, at int) bool {
+			if !defined[n] {
+				bad, badAt = n, pos+at
+				return false
+			}
+			return true
+		})
+		if bad != "" {
+			return bad, badAt
+		}
+		if open < 0 {
+			break
+		}
+		body := doc[pos+open+len("<script>"):]
+		end := strings.Index(body, "</script>")
+		if end < 0 {
+			end = len(body)
+		}
+		names(body[:end], func(n string, at int) bool {
+			if at >= 9 && body[at-9:at] == "function " {
+				defined[n] = true
+			}
+			return true
+		})
+		pos = pos + open + len("<script>") + end
+	}
+	return "", 0
 }
